@@ -1420,6 +1420,30 @@ def _merge_config(ctx, prog):
             good = is_file(pr[0]) and is_args(pr[1])
             swapped = is_args(pr[0]) and is_file(pr[1])
             if good or swapped:
+                # the file's dict read through a process-lifetime memo
+                # (lru_cache / cache) whose key does not depend on the
+                # file's content or modification time: a later -c run in the
+                # same process gets the values of the file as it *was*
+                fsrc = pr[0 if good else 1]
+                memos = [x for x in spread[0].walk() if x.op == "named" and
+                         str(x.args[0]).startswith("memo:") and
+                         is_file(x.args[1])]
+                for m_ in memos:
+                    keyed = any(is_call_to(y, "os.stat", "os.path.getmtime",
+                                           ".stat", "os.fstat")
+                                for y in spread[0].walk())
+                    if keyed:
+                        ctx.undecidable("C18.6", ns2[0], "-c: the config "
+                                        "file is read through a memo keyed "
+                                        "by file status")
+                        return
+                    ctx.ob("C18.6", ns2[0], False,
+                           f"-c: the config file is read through the "
+                           f"process-lifetime memo {str(m_.args[0])[5:]} "
+                           f"keyed by the path only — a file edited between "
+                           f"two runs of one process keeps its old values "
+                           f"(the file passed with -c no longer takes "
+                           f"priority)", key="C18.6:memo-read")
                 ctx.ob("C18.6", ns2[0], good,
                        "-c: the namespace is built from the file's dict "
                        "over vars(args) (file wins)" if good else
@@ -1431,7 +1455,10 @@ def _merge_config(ctx, prog):
                        key="C18.6:namespace")
                 other = (ue2[0].data["bound"] or {}).get("other") \
                     if ue2 else None
-                ok3 = len(ue2) == 1 and other is pr[0 if good else 1]
+                src3 = dict_priority(other, Interp.unname) \
+                    if other is not None else None
+                ok3 = len(ue2) == 1 and src3 is not None and \
+                    len(src3) == 1 and src3[0] is pr[0 if good else 1]
                 ctx.ob("C18.6", ue2[0] if ue2 else f, ok3,
                        "-c: package settings are overridden only through "
                        "update_existing_keys with the file's dict" if ok3
@@ -1443,6 +1470,14 @@ def _merge_config(ctx, prog):
                        if not sinks else f"-c: merge_config writes a file "
                        f"at {sinks[0][0].where}", key="C18.6:no-write")
                 return
+    if not ok:
+        # neither the update form nor a dict whose two sources are the file
+        # and vars(args): no evidence either way
+        ctx.undecidable("C18.6", ups[0] if ups else f, "-c: construction of "
+                        "the merged namespace not recognised (neither "
+                        "vars(args).copy().update(file) nor a dict with the "
+                        "two sources file / vars(args))")
+        return
     ctx.ob("C18.6", ups[0] if ups else f, ok,
            "-c: a copy of vars(args) is updated with the file's dict (file "
            "wins)" if ok else
